@@ -956,6 +956,7 @@ def _mutants():
     from selftest.mutate import Mutant as M
     C = "command_line.py"
     return [
+        M("num-workers-natural", "command_line.py", "'type': argcheck.as_nonnegi", "'type': argcheck.as_nat", "serial-worker-count-is-admitted"),
         M("cursor-advances-after-a-removal", "command_line.py", "                raise ValueError(msg)\n        else:\n            idx += 1\n    assert len(ref_transcripts) == len(hyp_transcripts)", "                raise ValueError(msg)\n        idx += 1\n    assert len(ref_transcripts) == len(hyp_transcripts)", "delete-at-cursor-keeps-the-cursor"),
         M("excluded-frames-dropped-before-the-runs", "command_line.py", "    counts, lens = x.unique_consecutive(return_counts=True)\n    if exclude_ids is not None:\n        not_excluded = (counts.unsqueeze(1) != exclude_ids).all(1)\n        lens = lens[not_excluded]", "    if exclude_ids is not None:\n        not_excluded = (x.unsqueeze(1) != exclude_ids).all(1)\n        x = x[not_excluded]\n    _, lens = x.unique_consecutive(return_counts=True)", "runs-of-the-stored-alignment"),
         M("missing-test-reads-the-id-column", "command_line.py", "if (ref[:, 1:] < 0).any():\n        raise ValueError(f'{err_msg} some token boundaries missing')", "if (ref < 0).any():\n        raise ValueError(f'{err_msg} some token boundaries missing')", "sign-test-reads-the-boundary-columns"),
